@@ -197,10 +197,14 @@ class Message(BaseMessage):
                      maildir_flags: MaildirFlags) -> Self:
         flag_set = maildir_flags.from_maildir(maildir_msg.get_flags())
         recent = maildir_msg.get_subdir() == 'new'
+        # aware local time: a naive value would later be labelled with the
+        # UTC offset of today instead of the one in force at that date
         try:
-            msg_dt = datetime.fromtimestamp(maildir_msg.get_date())
+            msg_dt = datetime.fromtimestamp(
+                maildir_msg.get_date()).astimezone()
         except (ValueError, OverflowError, OSError):
-            msg_dt = datetime.fromtimestamp(0)  # not representable
+            # not representable
+            msg_dt = datetime.fromtimestamp(0).astimezone()
         return cls(uid, msg_dt, flag_set,
                    email_id=email_id, thread_id=thread_id,
                    recent=recent, maildir=maildir, key=key)
